@@ -18,6 +18,23 @@ import ast
 import z3
 from . import engine as E
 
+# The z3 Python bindings re-check the context's error code after every C call; term traversal makes tens of millions of
+# such calls.  Errors still surface (the solver call itself is checked in pv/vc/solver.py through its result).
+try:
+    import z3.z3core as _core
+    _core.Elementaries.Check = lambda self, ctx: None
+except Exception:
+    pass
+_SX = {}
+
+
+def sx_len(t):
+    i = t.get_id()
+    if i not in _SX:
+        s = t.sexpr()
+        _SX[i] = (len(s), s)
+    return _SX[i]
+
 R, I, B, V = E.R, E.I, E.B, E.V
 
 
@@ -184,7 +201,7 @@ class ArrayTheory:
         q.extra_q = list(s2.qfacts[len(st.qfacts):])
         return trig
 
-    def instantiate(self, st, goal, rounds=3):
+    def instantiate(self, st, goal, rounds=int(__import__("os").environ.get("PV_INST_ROUNDS", "3"))):
         """Ground instances of the state's quantified facts, chosen by E-matching: a fact is instantiated at the terms that
         occur (in the goal, the path or earlier instances) as arguments of the functions its body applies to the bound
         variable.  Facts registered while instantiating (membership / first-index axioms of new terms) join the working set."""
@@ -238,6 +255,18 @@ class ArrayTheory:
                 return False
             index([p_ for p_ in work.path if mentions(p_)])
         goal_ids = set(seen)          # sub-terms of the goal: instantiation terms from here are never cut off
+        gnames = set()
+        gstack = [goal]
+        gseen = set()
+        while gstack:
+            t_ = gstack.pop()
+            if t_.get_id() in gseen:
+                continue
+            gseen.add(t_.get_id())
+            if z3.is_app(t_):
+                if t_.num_args() == 0 and t_.decl().kind() == z3.Z3_OP_UNINTERPRETED and t_.sort() == I:
+                    gnames.add(t_.decl().name())
+                gstack.extend(t_.children())
         index(list(work.path))
         for rnd in range(rounds):
             new = []
@@ -253,9 +282,12 @@ class ArrayTheory:
                                     ids.add(k_.get_id())
                                     terms.append(k_)
                     # smallest terms first: nested witness terms (matching loops) come last and are cut off
-                    terms.sort(key=lambda t_: (t_.get_id() not in goal_ids, len(t_.sexpr())))
+                    def rank(t_):
+                        n_, sx = sx_len(t_)
+                        return (t_.get_id() not in goal_ids, not any(g_ in sx for g_ in gnames), n_)
+                    terms.sort(key=rank)
                     terms = [t_ for t_ in terms if t_.get_id() in goal_ids] + \
-                            [t_ for t_ in terms if t_.get_id() not in goal_ids and len(t_.sexpr()) <= 160][:14]
+                            [t_ for t_ in terms if t_.get_id() not in goal_ids and sx_len(t_)[0] <= 220][:16]
                 else:
                     if consts is None:
                         consts = self.index_terms([goal] + list(work.path), limit=12) + [z3.IntVal(0)]
